@@ -199,6 +199,137 @@ func runC12(c *Check) {
 	ruleHashDefs(c, p)
 	ruleDecoderGuards(c, p)
 	ruleGobTypes(c, p)
+	ruleVerifierBoundBeforeValidation(c, p)
+}
+
+// ruleVerifierBoundBeforeValidation (C12-R6): the payload provider a signed header is verified
+// with lives in an unexported field that no codec carries (wire, store, cache file), so a header
+// that travelled any of those paths has none. In the block package, every validation of a
+// header's signature is therefore preceded, since the header was obtained, by binding the
+// manager's provider to that very header. A function that validates one of its own parameters
+// hands the obligation to its callers.
+func ruleVerifierBoundBeforeValidation(c *Check, p *Prog) {
+	rule := "C12-R6"
+	c.Doc(rule, "EO+VP: in the block package every signature validation of a header is preceded, on all paths since the header was obtained, by SetCustomVerifier(manager's provider) on the same header (the provider is carried by no codec).")
+	shT := "*" + rootPath + "/types.SignedHeader"
+	isHeader := func(v ssa.Value) bool { return v.Type().String() == shT }
+	// validating(fn) -> indices of header parameters it validates (directly or through callees)
+	validating := map[*ssa.Function]map[int]bool{}
+	baseNames := map[string]bool{
+		"(*" + rootPath + "/types.SignedHeader).ValidateBasic": true,
+		"(*" + rootPath + "/types.SignedHeader).Verify":        true,
+		rootPath + "/types.Validate":                           true,
+	}
+	var blockFns []*ssa.Function
+	for _, fn := range p.Funcs {
+		if pk := fnPkg(fn); pk != nil && pk.Pkg.Path() == rootPath+"/block" && fn.Blocks != nil {
+			blockFns = append(blockFns, fn)
+		}
+	}
+	headerArgs := func(fn *ssa.Function, call *ssa.CallCommon) []ssa.Value {
+		callee := call.StaticCallee()
+		if callee == nil {
+			return nil
+		}
+		var out []ssa.Value
+		if baseNames[callee.String()] {
+			for _, a := range call.Args {
+				if isHeader(a) {
+					out = append(out, a)
+				}
+			}
+			return out
+		}
+		for i := range validating[callee] {
+			if i < len(call.Args) {
+				out = append(out, call.Args[i])
+			}
+		}
+		return out
+	}
+	paramIndex := func(fn *ssa.Function, v ssa.Value) int {
+		for i, prm := range fn.Params {
+			if ssa.Value(prm) == v {
+				return i
+			}
+		}
+		return -1
+	}
+	for changed := true; changed; {
+		changed = false
+		for _, fn := range blockFns {
+			for _, b := range fn.Blocks {
+				for _, in := range b.Instrs {
+					call, ok := in.(ssa.CallInstruction)
+					if !ok {
+						continue
+					}
+					for _, h := range headerArgs(fn, call.Common()) {
+						if i := paramIndex(fn, h); i >= 0 {
+							if validating[fn] == nil {
+								validating[fn] = map[int]bool{}
+							}
+							if !validating[fn][i] {
+								validating[fn][i] = true
+								changed = true
+							}
+						}
+					}
+				}
+			}
+		}
+	}
+	n := 0
+	for _, fn := range blockFns {
+		var g *Graph
+		for _, b := range fn.Blocks {
+			for _, in := range b.Instrs {
+				call, ok := in.(*ssa.Call)
+				if !ok {
+					continue
+				}
+				for _, h := range headerArgs(fn, call.Common()) {
+					if paramIndex(fn, h) >= 0 {
+						continue // the caller's obligation
+					}
+					if g == nil {
+						g = BuildECFG(p, fn, ExpandOpts{MaxDepth: 0})
+						c.NoteGraph(g)
+					}
+					n++
+					hv, callI := h, in
+					hterm := TermOf(hv, &Ctx{Fn: fn}).String()
+					isBind := func(x *Node) bool {
+						cc := CallCommonOf(x)
+						if cc == nil || !strings.HasSuffix(CallName(x), "types.SignedHeader).SetCustomVerifier") || len(cc.Args) < 2 {
+							return false
+						}
+						if cc.Args[0] != hv && TermOf(cc.Args[0], x.Ctx).String() != hterm {
+							return false
+						}
+						pt := TermOf(cc.Args[1], x.Ctx)
+						return pt.Op == "field" && strings.HasSuffix(cc.Args[1].Type().String(), "types.SignaturePayloadProvider")
+					}
+					isDef := func(x *Node) bool { return x.Kind == NInstr && x.In == hv.(ssa.Instruction) }
+					switch hv.(type) {
+					case *ssa.Call, *ssa.Extract, *ssa.Alloc, *ssa.TypeAssert:
+					default:
+						// a variable read: no single defining point in the graph
+						isDef = func(*Node) bool { return false }
+					}
+					isUse := func(x *Node) bool { return x.Kind == NInstr && x.In == callI }
+					inst := fnShort(fn) + " ⟂ " + fnShort(call.Common().StaticCallee()) + "(" + trunc(TermOf(hv, &Ctx{Fn: fn}).String(), 40) + ")"
+					c.Decide(rule, inst, fnName(fn), p.InstrPos(in), "the manager's payload provider is bound to the header before its signature is validated",
+						"a header can reach signature validation without the manager's payload provider bound to it since it was obtained: a header reloaded from the cache file / store / wire carries no provider, so with a non-default provider a valid signature is rejected (or checked against the wrong payload)", g,
+						g.PrecedeSince(isDef, isBind, isUse))
+				}
+			}
+		}
+	}
+	if n == 0 {
+		c.Unk(rule, "validation-sites", "", "", "anchor lost: no signature validation of a non-parameter header in the block package")
+	}
+	c.MinInstances(rule, 4)
 }
 
 // goLeaves: exported leaf field paths of a wire type. Struct-typed fields of package types
